@@ -643,8 +643,9 @@ class Zone(dns.transaction.TransactionManager):
             kw = {}
             kw["sorted"] = sorted
             kw["relativize"] = relativize
-            if relativize:
-                assert self.origin is not None
+            if relativize and self.origin is not None:
+                # A zone read without any origin holds only absolute names and
+                # has nothing to relativize against.
                 kw["origin"] = self.origin
             kw["nl"] = nl
             kw["want_comments"] = want_comments
